@@ -77,6 +77,8 @@ def c_model(case, sizes, hsz, upto=None):
                 expr = "(mrun %s %s 0 None %s)" % (cfg, cnat(nl), o)
             else:
                 expr = "(let p := %s in mrunfrom %s (mnext %s p) %s)" % (expr, cfg, cfg, o)
+        elif expr is None and case.get("fail_rename") is not None:
+            expr = "(runf %s 0 None (Some %s) %s)" % (cfg, cnat(case["fail_rename"] - 1), o)
         elif expr is None:
             expr = "(run %s 0 None %s)" % (cfg, o)
         else:
@@ -116,6 +118,10 @@ Fixpoint all2 {A B} (f : A -> B -> bool) (a : list A) (b : list B) : bool :=
   match a, b with [], [] => true | x :: a', y :: b' => f x y && all2 f a' b' | _, _ => false end.
 Definition madm (ss : list st) (impl : list (list (option content))) : bool := all2 adm ss impl.
 Definition mclean (ss : list st) (impl : list (list (option content))) : bool := all2 clean ss impl.
+(* runs with an injected rename failure: [fault] is expected to be set *)
+Definition cleanf (s : st) (impl : list (option content)) : bool :=
+  l_eqb oc_eqb (files s) impl && match hbuf s with None => true | Some _ => false end.
+Definition mcleanf (ss : list st) (impl : list (list (option content))) : bool := all2 cleanf ss impl.
 """
 
 
@@ -163,8 +169,36 @@ def due_flushed(case):
     return due, T, t, (min(gaps) if gaps else None)
 
 
+def spec_fail(case, res):
+    """clean run with one injected os.rename failure: a failed rename loses no retained record (a rotation only
+    ever discards the OLDEST copy), the retained files stay one contiguous suffix of the stream up to the last
+    record, every non-empty file (the newest in particular) starts with the header"""
+    ow = res["spy"]["overwrites"]
+    if ow:
+        return "a rename overwrote copy %s which still held the retained records %r" % (ow[0][1], ow[0][2])
+    files = res["files"][0]
+    ids = []
+    for f in files:
+        if f:
+            if f[0] != "H":
+                return "a retained file does not start with the header: %r" % (f[:2],)
+            if any(i == "H" for i in f[1:]):
+                return "second header inside a file"
+            if any(i != "H" and i[0] == "P" for i in f):
+                return "garbled line"
+            ids += [it[1] for it in f if it != "H"]
+    n = res["nwritten"][0]
+    a = res["spy"]["legit_dropped"][0] + 1
+    if ids != list(range(a, n)):
+        return ("retained ids %r, expected exactly %d..%d (everything not discarded with the oldest copy), rename "
+                "#%d failed" % (ids, a, n - 1, case["fail_rename"]))
+    return None
+
+
 def spec_check(case, res, crashed):
     """the statement on the surviving files alone, for every log of the logger.  returns None | why"""
+    if case.get("fail_rename") is not None and not crashed:
+        return spec_fail(case, res)
     rules = harness.rules_of(case)
     due = due_flushed(case) if crashed else None
     for j, rule in enumerate(rules):
@@ -285,6 +319,21 @@ def gen_multi(rng, size=24, sparse=True):
     return case
 
 
+def gen_fail(rng):
+    """rotation with keep >= 2 on every cycle period; the i-th rename of the j-th rotation raises OSError"""
+    keep = rng.choice([2, 2, 3])
+    ops, active = gen_ops(rng, rng.randint(14, 30))
+    # make sure time passes so that several rotations happen
+    ops = [o if o[0] != "tick" else ["tick", max(o[1], 2)] for o in ops]
+    if active and rng.random() < 0.8:
+        ops.append(["stop", rng.randint(0, 2)])
+    nrot = max(1, sum(o[1] for o in ops if o[0] == "tick") // 4)
+    j = rng.randint(1, min(nrot, 4))
+    i = rng.randint(1, keep)
+    return {"keep": keep, "cycleP": 2, "fsize": rng.choice([0, 0, 10]), "flushP": rng.choice([8, 24]),
+            "reuse": rng.random() < 0.5, "procs": [ops], "fail_rename": (j - 1) * keep + i}
+
+
 def long_single(rng):
     """one streak log; the logger runs every tick (period 1/8 s << flushPeriod >= 1 s); no rotation or
     cyclePeriod > flushPeriod; run long enough that several flushes fall due; killed late"""
@@ -337,14 +386,26 @@ def run(ctx):
         cases.append(gen_case(ctx.rng))
     for _ in range(ctx.n(120, 1500)):
         cases.append(gen_multi(ctx.rng, sparse=ctx.rng.random() < 0.6))
+    # 1b. fault injection: one os.rename of one rotation raises OSError (all i for keep 2..3, sampled rotation j)
+    for keep in (2, 3):
+        for i in range(1, keep + 1):
+            for j in (1, 2, 3):
+                ops = [["start", 1]] + sum([[["tick", 1], ["run", 1]] for _ in range(12)], []) + [["tick", 1], ["stop", 1]]
+                cases.append({"keep": keep, "cycleP": 2, "fsize": 0, "flushP": 24, "reuse": False, "procs": [ops],
+                              "fail_rename": (j - 1) * keep + i})
+    for _ in range(ctx.n(40, 600)):
+        cases.append(gen_fail(ctx.rng))
     for case in cases:
         res = harness.run_case(case, work)
         nrot = sum(1 for c in res["spy"]["cycles"] if c[3])
         ctx.case({"case": case, "files": res["files"]}, nontrivial=nrot > 0,
-                 kind="clean:logs=%d:keep=%d" % (len(harness.rules_of(case)), case["keep"]))
+                 kind=("renamefail:keep=%d:hit=%s" % (case["keep"], res["spy"]["renames"] >= case["fail_rename"])
+                       if case.get("fail_rename") is not None else
+                       "clean:logs=%d:keep=%d" % (len(harness.rules_of(case)), case["keep"])))
         metas.append((case, res, None))
         try:
-            pairs.append((c_model(case, res["sizes"], res["hsz"]), c_allfiles(res["files"]), "clean"))
+            pairs.append((c_model(case, res["sizes"], res["hsz"]), c_allfiles(res["files"]),
+                          "cleanf" if case.get("fail_rename") is not None else "clean"))
         except ValueError as ex:
             pairs.append(None)
             ctx.tie_broken("correspondence", "C23 garbled file", "%s %s" % (json.dumps(case), ex))
@@ -450,7 +511,11 @@ def run(ctx):
 
     idx_clean = [i for i, p in enumerate(pairs) if p and p[2] == "clean"]
     idx_adm = [i for i, p in enumerate(pairs) if p and p[2] == "adm"]
+    idx_cleanf = [i for i, p in enumerate(pairs) if p and p[2] == "cleanf"]
     bad = []
+    if idx_cleanf:
+        b = ctx.coq_cases(HEADER, "mcleanf", [(pairs[i][0], pairs[i][1]) for i in idx_cleanf], name="cleanf")
+        bad += [idx_cleanf[j] for j in b]
     if idx_clean:
         b = ctx.coq_cases(HEADER, "mclean", [(pairs[i][0], pairs[i][1]) for i in idx_clean], name="clean")
         bad += [idx_clean[j] for j in b]
@@ -491,7 +556,9 @@ def run(ctx):
                            "cyclePeriod_ticks": case["cycleP"], "keep": case["keep"],
                            "crash_tick": None if not due else due[2], "tick_seconds": 0.125,
                            "due_flushed_per_log": None if not due else due[0]},
-                "contradicts": "C23.Props.crash_keeps_flushed_every_log / logger_flush_flushes_every_log / "
-                               "retained_contiguous"}
+                "contradicts": ("C23.Props.failed_rename_loses_nothing / failed_rename_stops_the_chain"
+                                if case.get("fail_rename") is not None else
+                                "C23.Props.crash_keeps_flushed_every_log / logger_flush_flushes_every_log / "
+                                "retained_contiguous")}
 
     ctx.settle(search)
